@@ -427,7 +427,7 @@ class OutGen:
         elif hz == 'implicit_loop_var_in_region':
             s = reg(['lf = (/ (real(i, jprb)*x1, i = 1, 4) /)'])
         elif hz == 'write_only_array_section':
-            s = reg(['w(1:1) = x1', 'lf(2:3) = 2.0_jprb'], '')
+            s = reg(['w(1:1) = x1', 'lf(2:3) = 2.0_jprb', 'if (n < 0) j1 = 0'], '')
         elif hz == 'stmt_function_in_region':
             self.extra_decl += ['real(jprb) :: hsf, hsx', 'hsf(hsx) = hsx*2.0_jprb + 1.0_jprb']
             s = reg(['s1 = hsf(s1) + x1'])
